@@ -231,10 +231,19 @@ func (n *BaseMember) DecodeJSON(b []byte, enc encoder.Encoder) error {
 		return e.Wrap(err)
 	}
 
-	n.name = u.Name
-	n.addr = addr
+	// NOTE build the member like NewMember does; publish conn info and the meta
+	// bytes are derived from meta and addr, they are not separate JSON fields.
+	m, err := newMemberWithMeta(u.Name, addr, meta)
+	if err != nil {
+		return e.Wrap(err)
+	}
+
+	n.name = m.name
+	n.addr = m.addr
 	n.joinedAt = u.JoinedAt
-	n.meta = meta
+	n.meta = m.meta
+	n.metab = u.Meta
+	n.publish = m.publish
 
 	return nil
 }
